@@ -81,3 +81,25 @@ package pe
 //@        && isNilIface(ret(call (*PresentationSubmissionBuilder).Build #1).2)
 //@        && len(ret(call (PresentationSubmission).Resolve #1).0) == len(result.0)
 //@   ensures [empty-envelope-only-if-nothing-is-required] isNilIface(result.1) && len(envelope.Presentations) == 0 ==> !definition.CredentialsRequired() && isNilIface(ret(call (PresentationSubmission).Resolve #1).1)
+
+// ---- C12: format designation ----
+
+//@ func matchProofType
+//@   prop C12
+//@   assume-benign
+//@ func jws.ParseString
+//@   trusted
+//@   benign
+//@   ensures isNilIface(result.1) ==> result.0 != nil
+
+// A credential with a format is accepted against a non-empty format designation only if the designation
+// has an entry for exactly the credential's own format; with a proof, only if one of the listed proof
+// types (JSON-LD) / algorithms (JWT) is the credential's.
+//@ func matchFormat
+//@   prop C12
+//@   nullable format
+//@   loop 1 invariant true
+//@   loop 2 invariant true
+//@   ensures [only-designated-formats] result ==> format == nil || len(*format) == 0 || credential.Format() == "" || (*format)[credential.Format()] != nil
+//@   ensures [json-ld-proof-type-listed] result && format != nil && len(*format) > 0 && credential.Format() == vc.JSONLDCredentialProofFormat && len(credential.Proof) > 0 ==>
+//@        did(call matchProofType #1) && ret(call matchProofType #1) == true && same(arg(call matchProofType #1, 1), credential)
